@@ -129,6 +129,10 @@ def run_job(job):
             return s, a, e, list(val_of(ns).reshape(-1)), val_of(i_succ).reshape(())[()], val_of(i_self).reshape(())[()], pre
     for o in ex.explore(run):
         if o.exc is not None:
+            from ..harness import exc_origin
+            if exc_origin(o.exc) == "harness":
+                ob.fail_harness(f"harness raised: {o.exc!r}")
+                continue
             ob.fail_harness(f"raised under symbolic execution: {o.exc!r}")
             continue
         s, a, e, ns, i_succ, i_self, pre = o.value
